@@ -204,14 +204,26 @@ class Gen(object):
             self.decisions += 1
             self.features.add('boolop')
             return '(q(%s) %s %s)' % (self.readable(scope, avoid), self.rng.choice(['and', 'or']), self.arg(scope, depth + 1, avoid))
-        if r < 0.90:
+        if r < 0.88:
             self.features.add('lambda_arg')
             return '(lambda: %s)' % self.readable(scope, avoid)
+        if r < 0.89:
+            # a default is evaluated where the lambda is written, its body never
+            self.features.add('lambda_default')
+            return '(lambda a_=%s: v(a_, %s))' % (self.readable(scope, avoid), self.readable(scope, avoid))
+        if r < 0.90 and self.dec_ok():
+            # a generator expression that is never iterated: only its first iterable is evaluated
+            self.decisions += 1
+            self.features.add('generator_never_iterated')
+            return '(v(cg) for cg in it(%s))' % self.readable(scope, avoid)
         if self.c01 and r < 0.97:
             self.features.add('risky_expr')
             n = self.readable(scope, avoid)
             return self.rng.choice(['%s.at' % n, '%s[0]' % n, '%s + %s' % (n, self.readable(scope, avoid)),
-                                    '-%s' % n, 'f"{%s}"' % n, '%s < %s' % (n, self.readable(scope, avoid))])
+                                    '-%s' % n, 'f"{%s}"' % n, '%s < %s' % (n, self.readable(scope, avoid)),
+                                    '%s[%s:%s]' % (n, self.readable(scope, avoid), self.readable(scope, avoid)),
+                                    'f"{%s!r} {%s!s:>9}"' % (n, self.readable(scope, avoid)),
+                                    '%s.at[%s].bt' % (n, self.readable(scope, avoid))])
         return self.readable(scope, avoid)
 
     def expr(self, scope, avoid=()):
@@ -359,6 +371,19 @@ class Gen(object):
 
     def s_walrus(self, ind, scope, depth, in_loop):
         n = self.pick_var(scope)
+        r = self.rng.random()
+        if r < 0.12 and self.dec_ok():
+            # comparison chains: the second operand is always evaluated, the later ones only while the chain holds
+            self.decisions += 1
+            e = self.expr(scope, avoid=(n,))
+            if self.rng.random() < 0.5:
+                self.emit(ind, 'v(v() < (%s := %s) < v(%s))' % (n, e, n))
+                scope.add(n)
+            else:
+                self.emit(ind, 'v(v(%s) < v() < (%s := %s))' % (self.readable(scope), n, e))
+                scope.add(n, definite=False)
+            self.features.add('walrus_in_comparison_chain')
+            return
         if self.rng.random() < 0.3 and self.dec_ok(2):
             # a chain of boolean operands: a later operand reads what an earlier one bound
             self.decisions += 2
